@@ -24,6 +24,7 @@ import (
 	modelv1 "github.com/apache/skywalking-banyandb/api/proto/banyandb/model/v1"
 	"github.com/apache/skywalking-banyandb/banyand/internal/sidx"
 	"github.com/apache/skywalking-banyandb/banyand/internal/verifdrv/drv"
+	"github.com/apache/skywalking-banyandb/banyand/measure"
 	"github.com/apache/skywalking-banyandb/banyand/stream"
 	"github.com/apache/skywalking-banyandb/pkg/convert"
 	"github.com/apache/skywalking-banyandb/pkg/encoding"
@@ -1020,6 +1021,75 @@ func doInv(f []string) string {
 	return res + " " + bits
 }
 
+// mpart <sids> <lo> <hi> <sid:ts[*count]>...   measure: real memPart writer + real partIter, time / series pruning only.
+// output: <part min-max> <primary block bounds> <all blocks> <blocks returned>
+func doMPart(f []string) string {
+	sids := parseSids(f[1])
+	lo, _ := strconv.ParseInt(f[2], 10, 64)
+	hi, _ := strconv.ParseInt(f[3], 10, 64)
+	var pts []measure.VerifPoint
+	seen := map[uint64]bool{}
+	var all []uint64
+	for _, t := range f[4:] {
+		cnt := 1
+		if i := strings.IndexByte(t, '*'); i >= 0 {
+			cnt, _ = strconv.Atoi(t[i+1:])
+			t = t[:i]
+		}
+		p := strings.Split(t, ":")
+		sid, _ := strconv.ParseUint(p[0], 10, 64)
+		ts, _ := strconv.ParseInt(p[1], 10, 64)
+		for k := 0; k < cnt; k++ {
+			pts = append(pts, measure.VerifPoint{SeriesID: sid, Ts: ts + int64(k), Version: int64(len(pts) + 1)})
+		}
+		if !seen[sid] {
+			seen[sid] = true
+			all = append(all, sid)
+		}
+	}
+	sort.Slice(all, func(i, j int) bool { return all[i] < all[j] })
+	fmtBlocks := func(bs []measure.VerifBlock) string {
+		var out []string
+		for _, b := range bs {
+			out = append(out, fmt.Sprintf("%d@%d-%d#%d", b.SeriesID, b.MinTs, b.MaxTs, b.Count))
+		}
+		sort.Strings(out)
+		return joinOrDash(out)
+	}
+	ab, pmin, pmax, prim, err := measure.VerifScanPart(pts, all, -1<<62, 1<<62)
+	if err != nil {
+		return "E" + errClass(err)
+	}
+	got, _, _, _, err := measure.VerifScanPart(pts, sids, lo, hi)
+	if err != nil {
+		return "E" + errClass(err)
+	}
+	var pb []string
+	for _, b := range prim {
+		pb = append(pb, fmt.Sprintf("%d~%d", b[0], b[1]))
+	}
+	return fmt.Sprintf("%d~%d %s %s %s", pmin, pmax, joinOrDash(pb), fmtBlocks(ab), fmtBlocks(got))
+}
+
+// bnd <order-by tag> <rows v:v:v:v:v:v>... | <criteria>   trace buildFilter: the sidx key range [minVal,maxVal]
+// derived for the order-by tag.  output: <min> <max> <tf bits>
+func doBnd(f []string) string {
+	tag := f[1]
+	left, crit := splitBar(f[2:])
+	c := criteriaOf(crit)
+	var rows [][]string
+	for _, t := range left {
+		rows = append(rows, strings.Split(t, ":"))
+	}
+	bits := tfBits(c, rows)
+	schema, names := traceSchema()
+	_, _, _, _, mn, mx, err := logicaltrace.VerifBuildFilter(c, schema, names, map[string]int{}, nil, "", "", tag)
+	if err != nil {
+		return "C" + errClass(err) + " " + bits
+	}
+	return fmt.Sprintf("%d %d %s", mn, mx, bits)
+}
+
 func handle(f []string) string {
 	if len(f) == 0 {
 		return "bad-op"
@@ -1039,6 +1109,10 @@ func handle(f []string) string {
 		return doInv(f)
 	case "sum":
 		return doSum(f)
+	case "mpart":
+		return doMPart(f)
+	case "bnd":
+		return doBnd(f)
 	}
 	return "bad-op"
 }
